@@ -361,7 +361,13 @@ func (f *lsFrame) callRet(c *ssa.Call, i int) string {
 		}
 	}
 	if first {
-		// foreign call: constructors return fresh objects
+		// foreign call: wrappers around a writer/reader keep the identity of what they wrap
+		if o := calleeObj(cc); o != nil && o.Pkg() != nil && len(cc.Args) > 0 {
+			switch o.Pkg().Path() + "." + objName(o) {
+			case "encoding/json.NewEncoder", "bufio.NewWriter", "bufio.NewReader", "io.MultiWriter", "io.TeeReader", "encoding/json.NewDecoder":
+				return f.pathOf(cc.Args[0])
+			}
+		}
 		return ""
 	}
 	return res
@@ -385,21 +391,32 @@ func (f *lsFrame) argPaths(cc *ssa.CallCommon, callee *ssa.Function) []string {
 
 func (f *lsFrame) freePaths(cc *ssa.CallCommon) []string {
 	if mc, ok := cc.Value.(*ssa.MakeClosure); ok {
-		out := make([]string, len(mc.Bindings))
-		for i, b := range mc.Bindings {
-			out[i] = f.pathOf(b)
-		}
-		return out
+		return f.bindingsOf(mc)
 	}
 	return nil
 }
 
-// closureFreePaths: bindings of a function value that is (a load of) a MakeClosure created in this frame.
+// bindingPath: a captured variable is bound by the address of its cell (an Alloc);
+// inside the closure it is only ever dereferenced, so the free variable is given the
+// path of the cell's content (what was stored into it).
+func (f *lsFrame) bindingPath(b ssa.Value) string {
+	if al, ok := b.(*ssa.Alloc); ok {
+		res := freshPath
+		for _, ref := range *al.Referrers() {
+			if s, ok := ref.(*ssa.Store); ok && s.Addr == al {
+				res = mergePath(res, f.pathOf(s.Val))
+			}
+		}
+		return res
+	}
+	return f.pathOf(b)
+}
+
 func (f *lsFrame) bindingsOf(v ssa.Value) []string {
 	if mc, ok := v.(*ssa.MakeClosure); ok {
 		out := make([]string, len(mc.Bindings))
 		for i, b := range mc.Bindings {
-			out[i] = f.pathOf(b)
+			out[i] = f.bindingPath(b)
 		}
 		return out
 	}
@@ -644,6 +661,9 @@ func (a *lsAnalysis) transfer(f *lsFrame, st *lsState, ins ssa.Instruction) {
 		cc := x.Common()
 		if op, ok := lockOp(cc); ok {
 			lp := f.pathOf(cc.Args[0])
+			if lp == "" || lp == freshPath {
+				return // lock of an object outside the shared root (e.g. another instance passed as argument)
+			}
 			switch op {
 			case "lock":
 				st.L[lp] = 'W'
@@ -660,8 +680,16 @@ func (a *lsAnalysis) transfer(f *lsFrame, st *lsState, ins ssa.Instruction) {
 			return
 		}
 		if cc.IsInvoke() && safeIface(cc.Value.Type()) {
-			// concurrency-safe by contract and outside this object's private state: not expanded
+			// concurrency-safe by contract and outside this object's private state: not expanded.
+			// Exception: formatting a module value with %v calls its String() method — a logger
+			// (or fmt) call that is handed the receiver reads whatever String() reads.
+			a.stringers(f, st, cc)
 			return
+		}
+		if callee := cc.StaticCallee(); callee != nil && !a.p.InModule(callee) {
+			if o, _ := callee.Object().(*types.Func); o != nil && o.Pkg() != nil && o.Pkg().Path() == "fmt" {
+				a.stringers(f, st, cc)
+			}
 		}
 		if a.out.Calls > 400000 {
 			a.out.Budget = true
@@ -671,7 +699,7 @@ func (a *lsAnalysis) transfer(f *lsFrame, st *lsState, ins ssa.Instruction) {
 		var exit LS
 		n := 0
 		for _, callee := range callees {
-			if !a.p.InModule(callee) || callee.Blocks == nil {
+			if !a.p.InModule(callee) || callee.Blocks == nil || isClockPkg(callee) {
 				continue
 			}
 			fp := f.freePaths(cc)
@@ -832,4 +860,74 @@ func pathsOverlap(a, b string) bool {
 		return true
 	}
 	return false
+}
+
+// variadicElems returns the values stored into the backing array of a variadic ...interface{} argument.
+func variadicElems(v ssa.Value) []ssa.Value {
+	sl, ok := v.(*ssa.Slice)
+	if !ok {
+		return nil
+	}
+	al, ok := sl.X.(*ssa.Alloc)
+	if !ok {
+		return nil
+	}
+	var out []ssa.Value
+	for _, ref := range *al.Referrers() {
+		ia, ok := ref.(*ssa.IndexAddr)
+		if !ok {
+			continue
+		}
+		for _, r2 := range *ia.Referrers() {
+			if st, ok := r2.(*ssa.Store); ok && st.Addr == ia {
+				out = append(out, st.Val)
+			}
+		}
+	}
+	return out
+}
+
+// stringers analyses the String() methods of module values passed as formatting
+// arguments (fmt verbs call them), in the current lock context.
+func (a *lsAnalysis) stringers(f *lsFrame, st *lsState, cc *ssa.CallCommon) {
+	for _, arg := range cc.Args {
+		for _, el := range variadicElems(arg) {
+			mi, ok := el.(*ssa.MakeInterface)
+			if !ok {
+				continue
+			}
+			t := mi.X.Type()
+			n := derefNamed(t)
+			if n == nil || n.Obj().Pkg() == nil || !isModPath(n.Obj().Pkg().Path()) {
+				continue
+			}
+			sm := a.p.MethodOf(n, "String")
+			if sm == nil || sm.Blocks == nil || !a.p.InModule(sm) {
+				continue
+			}
+			ms := a.p.SSA.MethodSets.MethodSet(t)
+			has := false
+			for i := 0; i < ms.Len(); i++ {
+				if ms.At(i).Obj().Name() == "String" {
+					has = true
+				}
+			}
+			if !has {
+				continue
+			}
+			args := make([]string, len(sm.Params))
+			if len(args) > 0 {
+				args[0] = f.pathOf(mi.X)
+			}
+			a.analyze(sm, args, nil, st.L)
+		}
+	}
+}
+
+// isClockPkg: the vendored holster clock package is the module's time source (a
+// drop-in for package time whose provider is switched only by tests via
+// Freeze/Unfreeze); it is treated like the standard library: not descended into.
+func isClockPkg(fn *ssa.Function) bool {
+	root := enclosingRoot(fn)
+	return root.Pkg != nil && root.Pkg.Pkg.Path() == pkgClock
 }
